@@ -508,24 +508,41 @@ def reloadOld : List ReloadGroup → World → Oracle → World × List Out
 /-! ### matching of the two generations (`InheritDialerHealthFrom`, by group name then node name) -/
 
 /-- a group of one generation as the hand-over sees it: model id of the group object, its name, and
-its member dialer objects with their names (the same name may denote distinct objects in different
-groups: per-group clones) -/
+its member dialer objects with their node name and link (names are NOT unique: two subscriptions,
+repeated `#name` fragments, per-group clones; the link is the node's identity) -/
 structure GenGroup where
   gid : Nat
   gname : Nat
-  members : List (Nat × Nat)     -- (node id, node name)
+  members : List (Nat × Nat × Nat)     -- (node id, node name, link)
 
 /-- Go map semantics of `m[k] = v` in a loop: the last entry with that key wins -/
 def lookupLast {β : Type} (p : β → Bool) (l : List β) : Option β := l.reverse.find? p
 
+/-- the old member a new member inherits from (fix3): among the old members of the same name that
+have not handed their state to an earlier member, the first with the same link; if there is none
+and the name occurs exactly once in the old group, that one (the link may have been edited) -/
+def matchMember (olds : List (Nat × Nat × Nat)) (used : List Nat) (nm : Nat × Nat × Nat) : Option Nat :=
+  let cands := olds.filter fun m => m.2.1 == nm.2.1
+  match cands.find? fun m => !used.contains m.1 && m.2.2 == nm.2.2 with
+  | some m => some m.1
+  | none =>
+    match cands with
+    | [m] => if used.contains m.1 then none else some m.1
+    | _ => none
+
+def matchMembers (olds : List (Nat × Nat × Nat)) : List (Nat × Nat × Nat) → List Nat → List (Nat × Nat)
+  | [], _ => []
+  | nm :: rest, used =>
+    match matchMember olds used nm with
+    | some o => (nm.1, o) :: matchMembers olds rest (o :: used)
+    | none => matchMembers olds rest used
+
 /-- the (new node, old node) pairs of one new group: its namesake among the old groups
-(`previousGroups[group.Name]`), then per member the old member of that group with the same name
-(`oldDialers[d.Property().Name]`); nothing without a namesake / without a same-named member -/
+(`previousGroups[group.Name]`), then member by member `matchMember`; nothing without a namesake -/
 def matchGroup (olds : List GenGroup) (G : GenGroup) : List (Nat × Nat) :=
   match lookupLast (fun og => og.gname == G.gname) olds with
   | none => []
-  | some og => G.members.filterMap fun nm =>
-      (lookupLast (fun m => m.2 == nm.2) og.members).map fun m => (nm.1, m.1)
+  | some og => matchMembers og.members G.members []
 
 def reloadGroupsOf (olds news : List GenGroup) (fb : Nat → Nat → Option Nat) : List ReloadGroup :=
   news.map fun G => ⟨G.gid, fb G.gid, matchGroup olds G⟩
